@@ -21,6 +21,8 @@ struct Sc {
     timeout_ms: u64,
     signal: String, // sigint | admin_shutdown | sigterm | double_sigint
     admin_client: bool,
+    /// clients that came and went before the population was built
+    visitors: usize,
 }
 
 #[derive(Debug)]
@@ -45,14 +47,34 @@ fn scenario(sc: &Sc, rep: &Report) -> Result<(), String> {
     let addr = cell.addr();
     let t_sig = Arc::new(AtomicU64::new(0));
     let mut hs = vec![];
+    // every client picks its startup style: StartupMessage directly, or SSLRequest first and, when
+    // answered 'N' (no certificate configured), plain text on the same socket (libpq sslmode=prefer)
+    let mut srng = Rng::new(sc.seed);
+    for v in 0..sc.visitors {
+        let prefer = srng.chance(1, 2);
+        rep.count(if prefer { "clients_sslrequest_then_plain" } else { "clients_direct_startup" }, 1);
+        let cid = format!("visitor{}", v);
+        let mut c = Conn::connect(&addr, &StartupOpts::new(USER, "db", PASS).app(&cid).prefer_tls(prefer)).map_err(|e| format!("{} connect: {}", cid, e))?;
+        c.query(&format!("SELECT 1 {}", tag(&cid, &format!("{}.q1", cid), "")), 5000).map_err(|(m, e)| format!("{}: {:?} {}", cid, e, summarize(&m)))?;
+        if srng.chance(1, 2) {
+            c.terminate();
+        } else {
+            c.close_fin();
+        }
+    }
+    if sc.visitors > 0 {
+        sleep_ms(30);
+    }
     let ready = Arc::new(std::sync::Barrier::new(sc.idle + sc.in_txn + 1));
     for i in 0..sc.idle {
         let addr = addr.clone();
         let ready = ready.clone();
         let t_sig = t_sig.clone();
+        let prefer = srng.chance(1, 2);
+        rep.count(if prefer { "clients_sslrequest_then_plain" } else { "clients_direct_startup" }, 1);
         hs.push(std::thread::spawn(move || -> Result<ClientReport, String> {
             let cid = format!("idle{}", i);
-            let mut c = Conn::connect(&addr, &StartupOpts::new(USER, "db", PASS).app(&cid))
+            let mut c = Conn::connect(&addr, &StartupOpts::new(USER, "db", PASS).app(&cid).prefer_tls(prefer))
                 .map_err(|e| format!("{} connect: {}", cid, e))?;
             c.query(&format!("SELECT 1 {}", tag(&cid, &format!("{}.q1", cid), "")), 5000)
                 .map_err(|(m, e)| format!("{} warmup: {:?} {}", cid, e, summarize(&m)))?;
@@ -79,9 +101,11 @@ fn scenario(sc: &Sc, rep: &Report) -> Result<(), String> {
         let ready = ready.clone();
         let t_sig = t_sig.clone();
         let remaining = sc.remaining_ms;
+        let prefer = srng.chance(1, 2);
+        rep.count(if prefer { "clients_sslrequest_then_plain" } else { "clients_direct_startup" }, 1);
         hs.push(std::thread::spawn(move || -> Result<ClientReport, String> {
             let cid = format!("txn{}", i);
-            let mut c = Conn::connect(&addr, &StartupOpts::new(USER, "db", PASS).app(&cid))
+            let mut c = Conn::connect(&addr, &StartupOpts::new(USER, "db", PASS).app(&cid).prefer_tls(prefer))
                 .map_err(|e| format!("{} connect: {}", cid, e))?;
             c.query(&format!("BEGIN {}", tag(&cid, &format!("{}.q1", cid), "")), 5000)
                 .map_err(|(m, e)| format!("{} begin: {:?} {}", cid, e, summarize(&m)))?;
@@ -176,7 +200,7 @@ fn scenario(sc: &Sc, rep: &Report) -> Result<(), String> {
         if cell.pg().wait_log("Got SIGINT", log_from, 3000).is_some() {
             sleep_ms(20);
             for k in 0..3 {
-                match Conn::connect(&addr, &StartupOpts::new(USER, "db", PASS).app("late")) {
+                match Conn::connect(&addr, &StartupOpts::new(USER, "db", PASS).app("late").prefer_tls(k == 1)) {
                     Ok(c) => {
                         rep.violation(
                             "C17|non_admin_login_admitted_after_shutdown_signal",
@@ -308,7 +332,7 @@ fn scenario(sc: &Sc, rep: &Report) -> Result<(), String> {
             }
         }
     }
-    rep.distinct(crate::util::fnv(format!("{:?}", (sc.idle, sc.in_txn, sc.remaining_ms / 50, sc.timeout_ms, &sc.signal, sc.admin_client)).as_bytes()));
+    rep.distinct(crate::util::fnv(format!("{:?}", (sc.idle, sc.in_txn, sc.remaining_ms / 50, sc.timeout_ms, &sc.signal, sc.admin_client, sc.visitors)).as_bytes()));
     Ok(())
 }
 
@@ -317,7 +341,7 @@ pub fn run(tier: &str) -> i32 {
         "C17",
         tier,
         "exploration",
-        "scenario = one pgcat process with 0-10 idle and 0-6 mid-transaction clients (0-600 ms of work left), optional admin connection, shutdown_timeout 0.5-8 s, signal in {SIGINT, admin SHUTDOWN, SIGTERM, SIGINT twice}; oracle = waitpid time/status from the parent, replies seen by each population member, login attempts after the 'Got SIGINT' log line; distinct = distinct population/timing classes",
+        "scenario = one pgcat process with 0-10 idle and 0-6 mid-transaction clients (0-600 ms of work left), 0-3 earlier visitors that already left, every client starting either with StartupMessage or with SSLRequest answered 'N' then plain text, optional admin connection, shutdown_timeout 0.5-8 s, signal in {SIGINT, admin SHUTDOWN, SIGTERM, SIGINT twice}; oracle = waitpid time/status from the parent, replies seen by each population member, login attempts after the 'Got SIGINT' log line; distinct = distinct population/timing classes",
     );
     rep.assume("session-mode clients are outside the property's wording and not generated");
     let thorough = rep.thorough();
@@ -335,6 +359,7 @@ pub fn run(tier: &str) -> i32 {
                 timeout_ms: if big_timeout { 8000 } else { *rng.pick(&[500, 1000, 2000]) },
                 signal: signal.into(),
                 admin_client: rng.chance(1, 3),
+                visitors: if rng.chance(1, 2) { rng.range(1, 3) as usize } else { 0 },
             }
         })
         .collect();
